@@ -15,6 +15,9 @@
   How each registry is keyed, whether `structure_to_schema` writes `cls._required` in place and on
   which class `create_serializer` installs `serialize` are NOT hard-wired: they are read from
   `Config`, which is computed from the table regenerated from /repo (`Sem/WorldTables.lean`).
+  For the current tree every switch is off (the wrapper registry is keyed by the class object since
+  /repo 2a0935f, `structure_to_schema` works on a copy of `_required` since 6efdaf1); the branches
+  for switched-on registries describe what the code did before and what a regression would do.
 
   Field declarations are abstract: a field is a self-contained typedpy field (`prim tag`, opaque,
   behaviour fixed by its tag), an implicit wrapper of a non-typedpy user class (`wrap name ty`, the
@@ -512,7 +515,8 @@ def hasRef (e : Entry) : Bool := e.core.fields.any fun f => match f.kind with | 
 
 /-- a step is quiet when `structure_to_schema` does not change `cls._required` (and, because the
     model does not follow ClassReference fields into the referenced classes' `_required`, is not
-    applied to a class with such fields while the in-place write exists) -/
+    applied to a class with such fields while the in-place write exists).  Every step is quiet when
+    `cfg.schemaWritesRequired` is off, which is the case for the current tree. -/
 def quietStep (cfg : Config) (w : World) : WorldOp → Bool
   | .toSchema c => !cfg.schemaWritesRequired ||
     (match alookup c w.classes with
@@ -525,8 +529,8 @@ def quietRun (cfg : Config) : World → List WorldOp → Bool
   | _, [] => true
   | w, op :: h => quietStep cfg w op && quietRun cfg (stepW cfg w op).1 h
 
-/-- the exclusion of exactly the known-finding region, as dictated by the configuration read from
-    the generated table: name clashes matter only while the wrapper registry is name-keyed, schema
+/-- the region in which unsafe registries fire, as dictated by the configuration read from the
+    generated table (empty when every switch is off): name clashes matter only while the wrapper registry is name-keyed, schema
     writes only while `structure_to_schema` writes in place -/
 def Excluded (cfg : Config) (h : List WorldOp) : Prop :=
   (cfg.wrapperByName = true → NoClashW (wrapsOf h)) ∧ quietRun cfg World.initial h = true
